@@ -94,6 +94,10 @@ def mapCols (f : Nat → Nat) : Expr → Expr
   | .isNull n e => .isNull n (mapCols f e)
   | .between n e lo hi => .between n (mapCols f e) (mapCols f lo) (mapCols f hi)
   | .inList n e xs => .inList n (mapCols f e) (mapColsList f xs)
+  | .caseWhen parts => .caseWhen (mapColsList f parts)
+  | .caseOf x parts => .caseOf (mapCols f x) (mapColsList f parts)
+  | .strFn g e => .strFn g (mapCols f e)
+  | .concat a b => .concat (mapCols f a) (mapCols f b)
 def mapColsList (f : Nat → Nat) : List Expr → List Expr
   | [] => []
   | e :: es => mapCols f e :: mapColsList f es
@@ -115,6 +119,10 @@ def cols : Expr → List Nat
   | .isNull _ e => cols e
   | .between _ e lo hi => cols e ++ (cols lo ++ cols hi)
   | .inList _ e xs => cols e ++ colsList xs
+  | .caseWhen parts => colsList parts
+  | .caseOf x parts => cols x ++ colsList parts
+  | .strFn _ e => cols e
+  | .concat a b => cols a ++ cols b
 def colsList : List Expr → List Nat
   | [] => []
   | e :: es => cols e ++ colsList es
@@ -282,6 +290,10 @@ def Plan.wellScoped (st : Store) : Plan → Bool
 def fromPlan : From → Plan
   | .table t => .scan t
   | .join k l r on => .join k on (fromPlan l) (fromPlan r)
+  | .derived f w items =>
+    .project items (match w with
+      | none => fromPlan f
+      | some e => .filter e (fromPlan f))
 
 /-- FROM → WHERE → projection -/
 def boundPlan (q : Select) : Plan :=
